@@ -613,6 +613,107 @@ def ob_b64s(which, n, module):
               nontrivial=n > 0)
 
 
+def ob_b64s_foreign(which, n, module, pos=0):
+    """decode of ARBITRARY text (every byte value at every position): accepted only if every symbol is in the alphabet and the
+    length is possible; what it returns re-encodes to the input (up to the unused bits of the last symbol)"""
+    import importlib
+    B = importlib.import_module(module)
+    # a well-formed text with ONE arbitrary byte (all 256 values) at position `pos`; the other symbols are fixed
+    base = (b"QUJDREVG" * 2)[:n]
+    t = SBytes(list(base[:pos]) + [z3.BitVec("t", 8)] + list(base[pos + 1:]))
+    encf = getattr(B, which + "_encode")
+    decf = getattr(B, which + "_decode")
+    triples = []
+    if hasattr(B, "b2a_base64"):
+        triples += [(B, "b2a_base64", _m_b2a_base64), (B, "a2b_base64", _m_a2b_base64)]
+    if hasattr(B, "_BinAsciiError"):
+        triples.append((B, "_BinAsciiError", _BinErr))
+    if hasattr(B, "binascii"):
+        class FakeBinascii:
+            b2a_base64 = staticmethod(_m_b2a_base64)
+            a2b_base64 = staticmethod(_m_a2b_base64)
+            Error = _BinErr
+        triples.append((B, "binascii", FakeBinascii))
+    import passlib.utils.binary as PB
+    if B is not PB:
+        triples += [(PB, "b2a_base64", _m_b2a_base64), (PB, "a2b_base64", _m_a2b_base64), (PB, "_BinAsciiError", _BinErr)]
+    alpha = list(b64ref.STD_B64) + ([0x2E] if which == "ab64" else [])
+    inalpha = z3.And(*[z3.Or(*[_t8(c) == v for v in alpha]) for c in t.b])
+
+    def run():
+        try:
+            z = decf(t)
+        except (ValueError, TypeError):
+            return ("refused", None, None)
+        return ("ok", z, encf(z))
+    with patched(*triples):
+        paths = explore(run, max_paths=4000)
+    nacc = 0
+    for p in paths:
+        if p.exc is not None:
+            if isinstance(p.exc, Unsupported):
+                return inconclusive("Unsupported: %s" % p.exc)
+            r, m = check(p.cond())
+            if r == "sat":
+                return _badf(which, module, n, m, t, "raises %r" % (p.exc,))
+            continue
+        kind, z, y = p.result
+        if kind == "refused":
+            # refusing is only right when a symbol is foreign or the length impossible
+            if n % 4 != 1:
+                r, m = check(p.cond(), inalpha)
+                if r == "sat":
+                    return _badf(which, module, n, m, t, "refused although every symbol is in the alphabet")
+            continue
+        nacc += 1
+        r, m = check(p.cond(), z3.Not(inalpha))
+        if r == "sat":
+            return _badf(which, module, n, m, t, "accepted although it contains a symbol outside the alphabet")
+        if n % 4 == 1:
+            return _badf(which, module, n, check(p.cond())[1], t, "accepted although no byte string encodes to %d symbols" % n)
+        y = SBytes.lift(y)
+        if len(y) != n:
+            return _badf(which, module, n, check(p.cond())[1], t, "decodes to bytes that encode to %d symbols" % len(y))
+        norm = lambda c: z3.If(_t8(c) == 0x2B, z3.BitVecVal(0x2E, 8), _t8(c)) if which == "ab64" else _t8(c)   # noqa
+        diff = z3.Or(*[norm(a) != norm(b) for a, b in zip(y.b[:-1], t.b[:-1])]) if n > 1 else z3.BoolVal(False)
+        r, m = check(p.cond(), diff)
+        if r == "sat":
+            return _badf(which, module, n, m, t, "is accepted but decodes to bytes that encode to different text")
+        if r != "unsat":
+            return inconclusive("solver %s" % r)
+    return ok("%s.%s_decode on %d-symbol texts with any byte value at position %d: accepted exactly when all symbols are in the alphabet%s; accepted "
+              "text re-encodes to itself up to the last symbol's unused bits (%d paths, %d accepting)" %
+              (module.split(".")[0], which, n, pos, " (never: impossible length)" if n % 4 == 1 else "", len(paths), nacc), paths=len(paths))
+
+
+def _badf(which, module, n, m, t, what):
+    if m is not None and not hasattr(m, "eval"):
+        return inconclusive("solver gave no model (%s) for: %s" % (m, what))
+    text = [m.eval(_t8(b), True).as_long() for b in t.b] if m is not None else [65] * n
+    return violation("%s.%s_decode(%r): %s" % (module, which, bytes(text), what), "b64w-foreign:%s:%s" % (module, which),
+                     {"module": "harness.c12", "func": "replay_foreign", "args": {"module": module, "which": which, "text": text}})
+
+
+def replay_foreign(module, which, text):
+    import importlib
+    B = importlib.import_module(module)
+    t = bytes(text)
+    alpha = bytes(b64ref.STD_B64) + (b"." if which == "ab64" else b"")
+    try:
+        z = getattr(B, which + "_decode")(t)
+    except (ValueError, TypeError):
+        ok_ = all(c in alpha for c in t) and len(t) % 4 != 1
+        return ok_ and "%s_decode(%r) refused although well-formed" % (which, t)
+    except Exception as e:
+        return "%s_decode(%r) raises %r" % (which, t, e)
+    if not all(c in alpha for c in t) or len(t) % 4 == 1:
+        return "%s_decode(%r) = %r is accepted" % (which, t, z)
+    y = getattr(B, which + "_encode")(z)
+    if y[:-1].replace(b"+", b".") != t[:-1].replace(b"+", b"."):
+        return "%s_decode(%r) = %r, which encodes to %r" % (which, t, z, y)
+    return False
+
+
 def _badw(which, module, what, n, data=None):
     return violation("%s.%s: %s" % (module, which, what), "b64w:%s:%s" % (module, which),
                      {"module": "harness.c12", "func": "replay_wrappers", "args": {"module": module, "data": data, "n": n}})
@@ -854,6 +955,11 @@ def run(tier, seed, t0, only=None):
         obs.append(Ob("b64s[n=%d]" % n, ob_b64s, {"which": "b64s", "n": n, "module": "passlib.utils.binary"}, timeout=300))
         obs.append(Ob("ab64[n=%d]" % n, ob_b64s, {"which": "ab64", "n": n, "module": "passlib.utils.binary"}, timeout=300))
         obs.append(Ob("libpass-ab64[n=%d]" % n, ob_b64s, {"which": "ab64", "n": n, "module": "libpass._utils.deprecated"}, timeout=300))
+    for n in (1, 2, 3, 4, 6, 7):
+        for pos in range(n):
+            for nm, wh, md in (("b64s", "b64s", "passlib.utils.binary"), ("ab64", "ab64", "passlib.utils.binary"),
+                               ("libpass-ab64", "ab64", "libpass._utils.deprecated")):
+                obs.append(Ob("%s-any-byte[n=%d,@%d]" % (nm, n, pos), ob_b64s_foreign, {"which": wh, "n": n, "module": md, "pos": pos}, timeout=600))
         obs.append(Ob("b32[n=%d]" % n, ob_b32, {"n": n}, timeout=300))
     for n in (range(0, 33) if tier == "quick" else range(0, 97)):
         obs.append(Ob("libpass-h64[n=%d]" % n, ob_libpass_engine, {"n": n}, timeout=300))
